@@ -4,40 +4,73 @@ import NauyacaVerif.Fs.TreeOS
 namespace NauyacaVerif.Drv.FsD
 open NauyacaVerif.Drv Fs
 
--- tree-spec = entries separated by ';' : "f:<path>:<id>" | "d:<path>" | "l:<path>:<target>"
--- paths are slash-separated component strings without leading slash ("" = root)
-def comps (s : String) : Path := if s == "" then [] else s.splitOn "/"
+/-! Line protocol of the filesystem models (TAB-separated fields).
+
+A *name* is a Python `str` given as comma-separated hex code points (`-` = empty); the harness
+maps the lone surrogates of undecodable file names injectively into U+F780…U+F7FF first.
+A *path* is names joined by `/` (`-` alone = the root).  A tree-spec is entries joined by `;`:
+`f|<path>|<id>`, `d|<path>`, `l|<path>|<target as one str>`. -/
+
+def nameOf (s : String) : Name := toName (cpsNat s)
+def comps (s : String) : Path := if s == "-" || s == "" then [] else (s.splitOn "/").map nameOf
+def showName (n : Name) : String := showCpsNat (ofName n)
+def showPath (p : Path) : String := if p.isEmpty then "-" else "/".intercalate (p.map showName)
+
 def parseTree (s : String) : Tree :=
   (s.splitOn ";").filterMap (fun e =>
-    match e.splitOn ":" with
+    match e.splitOn "|" with
     | ["f", p, id] => some (comps p, Node.file id.toNat!)
     | ["d", p] => some (comps p, Node.dir)
-    | ["l", p, tgt] => some (comps p, Node.link tgt)
+    | ["l", p, tgt] => some (comps p, Node.link (nameOf tgt))
     | _ => none)
 
-/-- TAB-separated: `tree <spec> <path>` and `static <spec> <metas> <listing> <rawPath>` -/
+def parseMetas (ms : String) : List FileMeta :=
+  (ms.splitOn ";").filterMap (fun e => match e.splitOn ":" with
+    | [id, u, sz] => some ⟨id.toNat!, u == "1", sz.toNat!⟩
+    | _ => none)
+
+def showResp : SResp → String
+  | .file p id => s!"20 file{id} {if mimeGem (p.getLast?.getD "") then "gem" else "plain"} {showPath p}"
+  | .listing p names => s!"20 listing {showPath p} " ++ " ".intercalate ((names.map showName).mergeSort (· ≤ ·))
+  | .notFound => "51"
+  | .tooLarge => "50"
+  | .tempFail .notUtf8 => "40 notutf8"
+  | .tempFail .denied => "40 denied"
+  | .tempFail .ioError => "40 ioerror"
+  | .tempFail .listing => "40 listing"
+  | .raised => "raised"
+
+def showCanon (sp : List Canon.Cps × Bool) : String :=
+  showCpsNat (Canon.render sp)
+
+/-- `tree <spec> <path>` : realpath port and kernel walk;
+    `canon <raw>` : `canonical_path`;
+    `static <spec> <metas> <listing 0|1> <indices path> <maxSize> <raw>…` : the static handler on the
+    document root `root` (first component) of the tree, one result per raw request path (`!` = refused line) -/
 def handle : List String → Option String
   | ["tree", ts, p] =>
     let t := parseTree ts
-    let (r, ok) := realpath t (p.splitOn "/")
-    let st := match statFollow t (p.splitOn "/") with
-      | some (q, .file id) => s!"file{id}@/{"/".intercalate q}"
-      | some (q, .dir) => s!"dir@/{"/".intercalate q}"
+    let (r, ok) := realpath t (comps p)
+    let st := match statFollow t (comps p) with
+      | some (q, .file id) => s!"file{id}@{showPath q}"
+      | some (q, .dir) => s!"dir@{showPath q}"
       | _ => "none"
-    some s!"ok /{"/".intercalate r} {ok} {st}"
-  | ["static", ts, ms, listing, rawPath] =>
+    some s!"ok {showPath r} {ok} {st}"
+  | ["canon", raw] =>
+    let sp := Canon.canonSegs (cpsNat raw)
+    some s!"ok {showCanon sp} {showPath (sp.1.map toName)} {sp.2}"
+  | "static" :: ts :: ms :: listing :: idx :: mx :: raws =>
     let t := parseTree ts
-    let metas : List FileMeta := (ms.splitOn ";").filterMap (fun e => match e.splitOn ":" with
-      | [id, u, b] => some ⟨id.toNat!, u == "1", b == "1"⟩ | _ => none)
-    let os := treeOS t metas
-    let cfg : SCfg := { root := ["root"], indices := ["index.gmi", "index.gemini"], listingOn := listing == "1", maxSize := 1000 }
-    let (segs, _) := canonSegs rawPath
-    let out := match Fs.handle os cfg segs with
-      | .file _ id => s!"20 file{id}"
-      | .listing _ names => s!"20 listing " ++ ",".intercalate (names.mergeSort (· ≤ ·))
-      | .notFound => "51"
-      | .tooLarge => "50"
-      | .tempFail => "40"
-    some ("ok " ++ out)
+    let os := treeOS t (parseMetas ms)
+    let cfg : SCfg := { root := [toName [114, 111, 111, 116]], indices := comps idx, listingOn := listing == "1", maxSize := mx.toNat! }
+    let one (raw : String) : String :=
+      if raw == "!" then "reject"        -- the request line was refused before any handler ran
+      else
+        let sp := canonSegs (cpsNat raw)
+        showResp (Fs.handle os cfg sp.1 sp.2)
+    some ("ok " ++ " | ".intercalate (raws.map one))
+  | "tree" :: _ => some "bad-op"
+  | "canon" :: _ => some "bad-op"
+  | "static" :: _ => some "bad-op"
   | _ => none
 end NauyacaVerif.Drv.FsD
